@@ -1,6 +1,7 @@
 //! replay <scenario> — exit 1 and print `REPRODUCED: ...` if the history violates the property on the real code,
 //! exit 0 and print `NOT-REPRODUCED` otherwise.  `replay --list` lists the scenarios.
 mod models;
+mod search;
 use deadpool::managed::{self, Metrics, RecycleResult, Timeouts};
 use deadpool::unmanaged;
 use deadpool::verif;
@@ -258,6 +259,9 @@ fn scenarios() -> Vec<(&'static str, fn() -> Outcome)> {
         ("model_duration", models::model_duration),
         ("model_pmutex", models::model_pmutex),
         ("model_atomics", models::model_atomics),
+        // random-history witness search (Err = a failing history on the real code)
+        ("search_managed", search::search_managed),
+        ("search_unmanaged", search::search_unmanaged),
     ]
 }
 
